@@ -340,48 +340,125 @@ def r5(F, R):
 
 
 def r6(F, R):
-    R.rule("C05-R6", "the NutsOptions copy used for doublings without U-turn check is `NutsOptions { check_turning: .., ..*options }`: "
-                     "base = the caller's options, explicit fields = check_turning only (max_energy_error and depth limits are inherited)")
-    found = 0
-    for b in F.bodies.values():
-        if not b.hir or b.kind == "closure" or K.is_std_derive(b):
+    R.rule("C05-R6", "every NutsOptions value handed to extend() by the doubling loop is the caller's options or a copy of them in which only "
+                     "check_turning is overridden (struct update `..*options`, or clone/copy followed by a store to that one field): max_energy_error and the "
+                     "depth limits are inherited")
+    n_total = 0
+    for b in sorted(F.bodies.values(), key=lambda x: x.path):
+        if b.kind == "closure" or b.fn_name == "extend":
             continue
-        if not b.calls_to(lambda c: path_ends(c["path"], "NutsTree::extend")) or b.fn_name == "extend":
+        calls = b.calls_to(lambda c: path_ends(c["path"], "NutsTree::extend"))
+        if not calls:
             continue
-        params = {pid: name for (pid, name) in K.param_bindings(b)}
-        for n in hir_walk(b.hir["value"]):
-            if n.get("k") == "Struct" and path_ends(n.get("adt"), "nuts::NutsOptions"):
-                found += 1
-                site = "%s @%s" % (b.path, loc(n["span"]))
-                key = "%s:options-copy#%d" % (b.path, found - 1)
-                fields = sorted(f["name"] for f in n["fields"])
-                base = n.get("base")
-                bid = K.local_id(base) if base else None
-                if base is None:
-                    R.bad("C05-R6", key, site, "NutsOptions built without inheriting from the caller's options (fields %s)" % fields)
-                elif bid not in params or "NutsOptions" not in (K.peel(base).get("ty") or ""):
-                    R.bad("C05-R6", key, site, "base of the options copy is not the options parameter (e.g. NutsOptions::default())")
-                elif fields != ["check_turning"]:
-                    R.bad("C05-R6", key, site, "options copy overrides %s, expected only check_turning" % fields)
+        adt_fields = None
+        for p_, a in F.adts.items():
+            if path_ends(p_, "nuts::NutsOptions") and a.get("variants"):
+                adt_fields = [f["name"] for f in a["variants"][0]["fields"]]
+
+        def is_opts_ty(l):
+            return path_ends((b.local_ty(l) or "").replace("&", "").replace("mut ", "").strip(), "NutsOptions")
+
+        def roots(l, depth=0, seen=None):
+            """Locals/args holding the NutsOptions objects that reference/copy local l may denote."""
+            seen = seen if seen is not None else set()
+            if l in seen or depth > 8:
+                return set()
+            seen.add(l)
+            if b.is_arg(l):
+                return {("arg", l)}
+            ty = (b.local_ty(l) or "").strip()
+            if not ty.startswith("&"):
+                return {("obj", l)}
+            out = set()
+            for d in b.defs().get(l, []):
+                if d[0] != "stmt" or d[3]["k"] != "assign" or d[3]["pl"]["p"]:
+                    continue
+                rv = d[3]["rv"]
+                if rv["k"] == "ref":
+                    pl = rv["pl"]
+                    if pl["p"] in ([], ["*"]):
+                        out |= roots(pl["l"], depth + 1, seen) if pl["p"] == ["*"] or (b.local_ty(pl["l"]) or "").startswith("&") else {("obj", pl["l"])} if not b.is_arg(pl["l"]) else {("arg", pl["l"])}
+                elif rv["k"] in ("use", "cast") and rv["op"]["k"] in ("copy", "move") and not rv["op"]["pl"]["p"]:
+                    out |= roots(rv["op"]["pl"]["l"], depth + 1, seen)
+            return out
+
+        def describe(obj):
+            """(base, overridden fields) of a NutsOptions object local."""
+            base = set()
+            over = set()
+            for d in b.defs().get(obj, []):
+                if d[0] == "call":
+                    c = d[3]["callee"]
+                    if not d[3]["dest"]["p"] and strip_generics(c.get("path", "")).endswith("Clone::clone") and d[3]["args"]:
+                        a0 = d[3]["args"][0]
+                        if a0["k"] in ("copy", "move"):
+                            base |= roots(a0["pl"]["l"])
+                        continue
+                    base.add(("call", c.get("path")))
+                    continue
+                st = d[3]
+                if st["k"] != "assign":
+                    continue
+                if st["pl"]["p"]:
+                    fs = [e["n"] for e in st["pl"]["p"] if isinstance(e, dict) and "f" in e]
+                    over.add(fs[0] if fs else "?")
+                    continue
+                rv = st["rv"]
+                if rv["k"] == "agg" and rv.get("ak") == "adt":
+                    for fn_, op in zip(rv["fields"], rv["ops"]):
+                        v = b.value(op)
+                        src = v
+                        while src[0] in ("deref", "ref"):
+                            src = src[1]
+                        if v[0] == "field" and v[2] == fn_:
+                            r0 = v[1]
+                            while r0[0] in ("deref", "ref"):
+                                r0 = r0[1]
+                            if r0[0] == "arg":
+                                base.add(("arg", r0[1]))
+                                continue
+                        over.add(fn_)
+                    if adt_fields and set(rv["fields"]) != set(adt_fields):
+                        over.add("?")
+                elif rv["k"] == "use" and rv["op"]["k"] in ("copy", "move"):
+                    pl = rv["op"]["pl"]
+                    if pl["p"] == ["*"] or not pl["p"]:
+                        base |= roots(pl["l"])
+                    else:
+                        base.add(("?", vt_str(b.value(rv["op"]))))
                 else:
-                    R.ok("C05-R6", key, site, "NutsOptions { check_turning, ..*%s }" % params[bid])
-    if found == 0:
-        # no copy at all: then every extend() must simply receive the caller's own options
-        for b in F.bodies.values():
-            if b.kind == "closure" or b.fn_name == "extend":
+                    base.add(("?", rv["k"]))
+            return base, over
+
+        for n, (bb, t) in enumerate(calls):
+            oargs = [a for a in t["args"] if a["k"] in ("copy", "move") and is_opts_ty(a["pl"]["l"])]
+            key = "%s:options-arg#%d" % (b.path, n)
+            site = "%s @%s" % (b.path, loc(t["span"]))
+            if len(oargs) != 1:
+                R.bad("C05-R6", key, site, "extend() call without exactly one NutsOptions operand")
                 continue
-            for n, (bb, t) in enumerate(b.calls_to(lambda c: path_ends(c["path"], "NutsTree::extend"))):
-                oargs = [a for a in t["args"] if a["k"] in ("copy", "move") and path_ends(a["pl"]["ty"].replace("&", "").strip(), "NutsOptions")]
-                key = "%s:options-arg#%d" % (b.path, n)
-                site = "%s @%s" % (b.path, loc(t["span"]))
-                v = b.value(oargs[0]) if len(oargs) == 1 else None
-                while v is not None and v[0] in ("ref", "deref"):
-                    v = v[1]
-                if v is not None and v[0] == "arg":
-                    R.ok("C05-R6", key, site, "no options copy: extend() receives the caller's options (%s)" % v[2])
+            n_total += 1
+            problems = []
+            notes = []
+            for (kind, l) in sorted(roots(oargs[0]["pl"]["l"])):
+                if kind == "arg":
+                    notes.append("the caller's options")
+                    continue
+                base, over = describe(l)
+                nm = b.local_name(l) or "_%d" % l
+                if not base or any(k_ != "arg" for (k_, _x) in base):
+                    problems.append("%s is not derived from the options parameter (%s)" % (nm, sorted(base, key=str)))
+                elif over - {"check_turning"}:
+                    problems.append("%s overrides %s, expected only check_turning" % (nm, sorted(over)))
                 else:
-                    R.bad("C05-R6", key, site, "extend() receives %s, neither the caller's options nor a copy inheriting from them" % (vt_str(v) if v else None))
-    R.floor("C05-R6", 1)
+                    notes.append("%s = options with %s overridden" % (nm, sorted(over) or "nothing"))
+            if problems:
+                R.bad("C05-R6", key, site, "; ".join(problems))
+            elif not notes:
+                R.bad("C05-R6", key, site, "cannot tell which NutsOptions value extend() receives")
+            else:
+                R.ok("C05-R6", key, site, "; ".join(sorted(set(notes))))
+    R.floor("C05-R6", 2)
 
 
 def run(F, R, config="all"):
